@@ -83,10 +83,31 @@ func (n *nest) value() any {
 	return []any{n.x0.value(), rest}
 }
 
+// listLeaves: operand VALUES may themselves be lists (vectors, pairs, empty lists, things that
+// look like an unfolded X % op result): the non-recursive helpers must treat them as opaque.
+var listLeaves bool
+
+func listValue(r *vh.Rand) any {
+	switch r.Intn(5) {
+	case 0:
+		return []any{}
+	case 1:
+		return []any{tplm.Leaf(r.Intn(9)), tplm.Leaf(r.Intn(9))} // a vector / pair
+	case 2:
+		return []any{tplm.Leaf(r.Intn(9)), []any{}} // looks like (x % op) with no operator
+	case 3:
+		return []any{tplm.Leaf(r.Intn(9)), []any{[]any{toks[r.Intn(len(toks))], tplm.Leaf(r.Intn(9))}}} // looks like x op y
+	}
+	return []any{nil, toks[r.Intn(len(toks))], tplm.Leaf(1)}
+}
+
 func genNest(r *vh.Rand, depth int, expr bool) *nest {
 	if depth <= 0 || r.Chance(55) {
 		if expr {
 			return &nest{leaf: atomExpr(r.Intn(9))}
+		}
+		if listLeaves && r.Chance(35) {
+			return &nest{leaf: listValue(r)}
 		}
 		switch r.Intn(4) {
 		case 0:
@@ -103,21 +124,24 @@ func genNest(r *vh.Rand, depth int, expr bool) *nest {
 	return n
 }
 
-// expected results, computed from the generator structure (not from the value tree)
-func foldNR(n *nest) any {
+// expected results and call logs, computed from the generator structure (not from the value
+// tree): fn is called once per separator, left to right; with recursive=true a nested operand
+// is folded (its calls happen) right before the call that consumes it.
+func foldNR(n *nest, rc *recorder) any {
 	acc := n.x0.value()
 	for _, o := range n.ops {
-		acc = []any{toks[o.op], acc, o.y.value()}
+		acc = rc.mkOp(toks[o.op], acc, o.y.value())
 	}
 	return acc
 }
-func foldR(n *nest) any {
+func foldR(n *nest, rc *recorder) any {
 	if n.isLeaf() {
 		return n.leaf
 	}
-	acc := foldR(n.x0)
+	acc := foldR(n.x0, rc)
 	for _, o := range n.ops {
-		acc = []any{toks[o.op], acc, foldR(o.y)}
+		y := foldR(o.y, rc)
+		acc = rc.mkOp(toks[o.op], acc, y)
 	}
 	return acc
 }
@@ -245,16 +269,38 @@ func guard(f func() string) (s string) {
 	return f()
 }
 
-var wrap = func(v any) any { return []any{tplm.Leaf(9), v} }
-var mkOp = func(op *tpl.Token, x, y any) any { return []any{op, x, y} }
+// recorder: the callbacks handed to ListOp / BinaryOp log their arguments and return a value
+// that carries the call number, so the ORDER of the calls is observable.
+type recorder struct {
+	n   int
+	log []any
+}
+
+func (rc *recorder) wrap(v any) any {
+	rc.log = append(rc.log, v)
+	rc.n++
+	return []any{tplm.Leaf(100 + rc.n - 1), v}
+}
+func (rc *recorder) mkOp(op *tpl.Token, x, y any) any {
+	rc.log = append(rc.log, op)
+	rc.n++
+	return []any{op, x, y, tplm.Leaf(100 + rc.n - 1)}
+}
+func (rc *recorder) show() string {
+	if rc.log == nil {
+		return " log=()"
+	}
+	return " log=" + show(rc.log)
+}
 
 // callHelper applies one helper of tpl/tpl.go to `in` and renders what it returns / visits.
 func callHelper(op string, in []any) (impl string) {
+	rc := &recorder{}
 	switch op {
 	case "list":
-		impl = guard(func() string { return "ok " + show(tpl.List(in)) })
+		impl = guard(func() string { return "ok " + show(tpl.List(in)) }) + rc.show()
 	case "listop":
-		impl = guard(func() string { return "ok " + show(tpl.ListOp[any](in, wrap)) })
+		impl = guard(func() string { return "ok " + show(tpl.ListOp[any](in, rc.wrap)) }) + rc.show()
 	case "rangeop":
 		var visited []any
 		p := guard(func() string { tpl.RangeOp(in, func(v any) { visited = append(visited, v) }); return "0" })
@@ -266,9 +312,9 @@ func callHelper(op string, in []any) (impl string) {
 		}
 		impl = "visited " + show(visited) + " panic=" + p
 	case "bopnr":
-		impl = guard(func() string { return "ok " + show(tpl.BinaryOp(false, in, mkOp)) })
+		impl = guard(func() string { return "ok " + show(tpl.BinaryOp(false, in, rc.mkOp)) }) + rc.show()
 	case "bopr":
-		impl = guard(func() string { return "ok " + show(tpl.BinaryOp(true, in, mkOp)) })
+		impl = guard(func() string { return "ok " + show(tpl.BinaryOp(true, in, rc.mkOp)) }) + rc.show()
 	case "bexnr":
 		impl = guard(func() string { return "ok " + show(tpl.BinaryExpr(false, in)) })
 	case "bexr":
@@ -434,19 +480,24 @@ func runHelper(o *vh.Out, op string, in []any, n *nest) {
 		want := ""
 		switch op {
 		case "list":
-			want = "ok " + show(rs)
+			want = "ok " + show(rs) + " log=()"
 		case "listop":
+			rc := &recorder{}
 			ws := make([]any, len(rs))
 			for i, v := range rs {
-				ws[i] = wrap(v)
+				ws[i] = rc.wrap(v)
 			}
-			want = "ok " + show(ws)
+			want = "ok " + show(ws) + rc.show()
 		case "rangeop":
 			want = "visited " + show(rs) + " panic=0"
 		case "bopnr":
-			want = "ok " + show(foldNR(n))
+			rc := &recorder{}
+			want = "ok " + show(foldNR(n, rc))
+			want += rc.show()
 		case "bopr":
-			want = "ok " + show(foldR(n))
+			rc := &recorder{}
+			want = "ok " + show(foldR(n, rc))
+			want += rc.show()
 		case "bexnr":
 			leaves := n.x0.isLeaf()
 			for _, x := range n.ops {
@@ -459,7 +510,7 @@ func runHelper(o *vh.Out, op string, in []any, n *nest) {
 			want = "ok " + exprR(n, true)
 		}
 		if want != "" && impl != want {
-			o.Oracle(op+"-order", caseLine, "want "+want+" got "+impl)
+			o.Oracle(op+"-order", caseLine, "want (R results / calls in source order, each once) "+want+" got "+impl)
 		}
 		o.Count("wellformed_" + op)
 	} else {
@@ -484,9 +535,11 @@ basicLit = INT | FLOAT
 `
 
 var calcMutated string
+var calcCalls []int // positions of the operator tokens in the order the callback was called
 
 func calcFold(in []any) any {
 	return tpl.BinaryOp(true, in, func(op *tpl.Token, x, y any) any {
+		calcCalls = append(calcCalls, int(op.Pos))
 		switch op.Tok {
 		case '+':
 			return x.(float64) + y.(float64)
@@ -507,8 +560,11 @@ func calcProcs() map[string]any {
 			// the calculator is run twice on the same match result; the result must not change
 			in := self.([]any)
 			before := recap(in, func(int) int { return 0 })
+			calcCalls = nil
 			r1 := calcFold(in)
+			first := calcCalls
 			r2 := calcFold(in)
+			calcCalls = first
 			if r1 != r2 || !sameTree(in, before) {
 				calcMutated = fmt.Sprintf("BinaryOp(true, self) gave %v then %v; self is %s, was %s", r1, r2, show(in), show(before))
 			}
@@ -626,6 +682,40 @@ func runCalc(o *vh.Out, c tplm.Compiled, gsx string, text string, wellFormed boo
 		o.Oracle("helper-mutates-input", caseLine, calcMutated)
 		calcMutated = ""
 	}
+	if wellFormed && !strings.HasSuffix(impl, "err") {
+		// evaluation order: the "*" of a term left to right, then the "+"/"-" that consumes the term
+		var wantOps []int
+		var pendingAdd = -1
+		for _, t := range ts {
+			switch t.Tok {
+			case token.MUL, token.QUO:
+				wantOps = append(wantOps, int(t.Pos))
+			case token.ADD:
+				if pendingAdd >= 0 {
+					wantOps = append(wantOps, pendingAdd)
+				}
+				pendingAdd = int(t.Pos)
+			case token.SUB:
+				// binary minus iff the previous token is a number
+				i := 0
+				for ; ts[i] != t; i++ {
+				}
+				if i > 0 && ts[i-1].Tok == token.INT {
+					if pendingAdd >= 0 {
+						wantOps = append(wantOps, pendingAdd)
+					}
+					pendingAdd = int(t.Pos)
+				}
+			}
+		}
+		if pendingAdd >= 0 {
+			wantOps = append(wantOps, pendingAdd)
+		}
+		if fmt.Sprint(wantOps) != fmt.Sprint(calcCalls) && !(len(wantOps) == 0 && len(calcCalls) == 0) {
+			o.Oracle("calc-call-order", caseLine, fmt.Sprintf("%q: operator callback called at positions %v, evaluation order is %v", text, calcCalls, wantOps))
+		}
+	}
+	calcCalls = nil
 	if wellFormed {
 		p := &pc{ws: ws}
 		want, ok := p.expr(1)
@@ -709,10 +799,12 @@ func main() {
 		if op == "bopr" || op == "bexr" {
 			depth = 3
 		}
+		listLeaves = !expr && depth == 1 // list, listop, rangeop, bopnr: operands are opaque values
 		n := genNest(rr, depth, expr)
 		for n.isLeaf() {
 			n = genNest(rr, depth, expr)
 		}
+		listLeaves = false
 		in := n.value().([]any)
 		if i%3 == 2 { // a sequence of helpers on the same tree
 			group := groupA
